@@ -72,6 +72,13 @@ def load_harness(prop):
     return importlib.import_module("harness.%s" % prop)
 
 
+def _call_pred(p, inputs, obs, label):
+    try:
+        return p(inputs, obs, label)
+    except TypeError:
+        return p(inputs, obs)
+
+
 # ---------------------------------------------------------------------------------- one job (child process)
 def _funcs():
     from wsx import loader, sxbuiltins
@@ -114,7 +121,7 @@ def run_job(arg):
                 eng.register_input(k, v)
             obs = H.scenario(W, inputs)
             for label, cond in H.oracle(inputs, obs):
-                excl = [p(inputs, obs) for p in preds] if preds else None
+                excl = [_call_pred(p, inputs, obs, label) for p in preds] if preds else None
                 eng.require(cond, label, detail=obs, excl=excl)
             return inputs, obs
 
